@@ -132,6 +132,18 @@ func (z *Decimal) scan(r io.ByteScanner, base int) (f *Decimal, b int, err error
 	}
 	// exp2 != 0
 
+	// Like math/big, reject binary exponents outside the int32 range. (The
+	// scaling below cannot deal with them: 2**7133786264 overflows on its own,
+	// so that the representable 1p-7133786264 came back as an exact 0,
+	// 1p7200000000 as an exact +Inf, and the sum above may even have wrapped
+	// around int64: 0x.8p-9223372036854775808 gave +Inf.)
+	if exp2 < MinExp || exp2 > MaxExp {
+		z.form = zero
+		f = nil
+		err = fmt.Errorf("exponent overflow")
+		return
+	}
+
 	// apply 2**exp2
 	//
 	// If the binary exponent is small enough for the result to possibly fit
